@@ -239,7 +239,7 @@ func runTable(ctx *core.Ctx, v *verdicts) error {
 		mu     sync.Mutex
 		first  error
 		wg     sync.WaitGroup
-		sem    = make(chan struct{}, ctx.Pick(6, 5))
+		sem    = make(chan struct{}, ctx.Pick(6, 12))
 		ncases int
 		seq    int
 		sample sync.Once
